@@ -20,17 +20,26 @@
 (*              Euler steps of size dt: u_K = (I + dt Dxx)^K u_0.           *)
 (*                                                                         *)
 (* Part B - the life of a test problem object, one action per code step:   *)
-(*   BuildModel -> MakeExact -> MakeDataDist -> SampleData ->              *)
-(*   MakeLikelihood -> Assemble -> GetComponents                           *)
+(*   ResolveOptions -> BuildModel -> MakeExact -> MakeDataDist ->          *)
+(*   SampleData -> MakeLikelihood -> Assemble -> GetComponents             *)
 (* over the option lattice (problem, sizes, PSF, BC, phantom, noise type,  *)
-(* level, prior, scripted standard-normal draw Z).  Objects live in a heap *)
+(* level, prior, scripted standard-normal draw Z).  Every constructor      *)
+(* argument that has a default is a pair <<given, value>>; the documented  *)
+(* interface uses Used(arg) = IF given THEN value ELSE documented default, *)
+(* and the lattice contains the admissible values that Python treats as    *)
+(* false (0, all-zero arrays) for every option that has one (Part C:       *)
+(* OptionTable lists every option with a default of every test problem).   *)
+(* Objects live in a heap                                                  *)
 (* and refer to each other by name, so that "the same model / data /       *)
-(* geometry" is a statement about references.  Invariants: SameModel,      *)
+(* geometry" is a statement about references.  Invariants: GivenIsUsed,    *)
+(* ExactSolutionIsGiven, GivenDataIsData, TableCovered, SameModel,         *)
 (* SameData, SameGeometries, ExactDataIsModelOfExactSolution,              *)
 (* NoiseRelation (data - exactData = NoiseScale(type, level, exactData)    *)
 (* .* Z), LikelihoodNoiseIsStated, PosteriorIsLikPlusPrior.                *)
 (* Named deviations (off in the deciding configurations): VarianceAsStd,   *)
-(* OtherModelInstance, GetComponentsCopiesData, OtherPhantom.              *)
+(* OtherModelInstance, GetComponentsCopiesData, OtherPhantom,              *)
+(* TruthinessDefault (`x = x or default`: a given falsy value is replaced  *)
+(* by the default).                                                        *)
 (*                                                                         *)
 (* Noise with an SNR option (Heat1D, Poisson1D, Abel1D): the docstrings do *)
 (* not define the ratio; the spec states only that ONE scalar sigma scales *)
@@ -54,6 +63,7 @@ CV == INSTANCE Conv WITH c <- 0, MaxN1 <- 0, MaxM1 <- 0, MaxN2 <- 0, MaxM2 <- 0,
 ISum(s)   == CV!ISum(s)
 IAbs(a)   == IF a < 0 THEN -a ELSE a
 IMV(A, x) == CV!IMV(A, x)
+SeqOfSet(S) == LET RECURSIVE go(_) go(T) == IF T = {} THEN <<>> ELSE LET x == CHOOSE x \in T : TRUE IN <<x>> \o go(T \ {x}) IN go(S)
 
 \* =========================================================================================
 \* Part A: documented operators
@@ -129,7 +139,8 @@ HeatStepIsStencil(N, r) ==
 \* ---- the model cases ------------------------------------------------------------------------
 MaxAbelN == IF Size = 0 THEN 2 ELSE IF Size = 1 THEN 5 ELSE 7
 \* <<r, K>>: r = dt/dx^2 and the number of steps; kept small enough for 32-bit rationals
-HeatRK   == {<<Q(1, 2), K>> : K \in 1..9} \cup {<<Q(5, 8), K>> : K \in 1..2} \cup {<<Q(3, 4), 1>>}
+\* K = 0: max_time = 0 (an admissible value that Python treats as false): no step is taken, u_0 is observed
+HeatRK   == {<<Q(1, 2), K>> : K \in 0..9} \cup {<<Q(5, 8), K>> : K \in 1..2} \cup {<<Q(3, 4), 1>>}
                 \cup {<<Q(1, 4), K>> : K \in 1..4} \cup {<<Q(1, 3), K>> : K \in 1..3}
 ModelCases ==
        { [kind |-> "abel", N |-> N, h |-> h] : N \in 2..MaxAbelN, h \in {Q(1, 2), Q(1, 4), Q(1, 1), Q(2, 3)} }
@@ -146,7 +157,8 @@ ModelOK ==
       CASE opt.kind = "abel"    -> AbelDefining(opt.N, opt.h) /\ AbelStructure(opt.N, opt.h)
         [] opt.kind = "wang"    -> WangJacobianIsDerivative /\ WangIsCubic
         [] opt.kind = "poisson" -> PoisStencil(opt.kappa, opt.dx) /\ PoisResidual(opt.kappa, opt.f, opt.dx)
-        [] opt.kind = "heat"    -> HeatStepIsStencil(opt.N, HeatR(opt))
+        [] opt.kind = "heat"    -> /\ HeatStepIsStencil(opt.N, HeatR(opt))
+                                   /\ (opt.K = 0 => HeatFinal(opt.u0, HeatR(opt), opt.K) = VR(opt.u0))
 
 EmitModel ==
     (Emit /\ pc = "model") =>
@@ -174,43 +186,144 @@ Shapes1 == IF Size = 0 THEN {<<4, 4, "ramp">>} ELSE IF Size = 1 THEN {<<5, 3, "s
 ShapesL == IF Size = 0 THEN {<<4, 4, "ramp">>} ELSE IF Size = 1 THEN {<<4, 4, "ramp">>, <<4, 4, "sym">>} ELSE {<<4, 4, "ramp">>, <<4, 4, "sym">>, <<6, 6, "ramp">>}
 Shapes2 == IF Size = 0 THEN {<<2, 2, "ramp">>} ELSE IF Size = 1 THEN {<<3, 2, "ramp">>} ELSE {<<3, 2, "ramp">>, <<2, 3, "quad">>, <<3, 3, "ramp">>}
 
-Base == [problem |-> "na", n |-> 0, m |-> 0, psf |-> "na", bc |-> "na", orient |-> "na", phantom |-> "na",
-         noise |-> "na", level |-> Zero, prior |-> "default", zpat |-> "zero", exsol |-> "default", wdata |-> "default"]
+\* ---- constructor arguments with documented defaults ---------------------------------------------
+\* Every constructor argument that has a default is a pair <<given, value>>.  "Not given" carries a sentinel of the
+\* option's type: "Default" for named / array / object values, <<0, 0>> (no rational has denominator 0) for numbers.
+NotGivenS == <<FALSE, "Default">>
+DefaultQ  == <<0, 0>>
+NotGivenQ == <<FALSE, DefaultQ>>
+Giv(v)    == <<TRUE, v>>
+\* the documented interface: the given value, otherwise the documented default - whatever the value is
+Used(a, dflt) == IF a[1] THEN a[2] ELSE dflt
+\* admissible values that Python treats as false: the number 0 (0, 0.0, a one-element zero array) and all-zero arrays
+FalsyQ(v) == v = Zero
+FalsyS(v) == v = "zeros"
+\* what the modelled implementation picks.  Named deviation TruthinessDefault: defaulting through the truth value
+\* (`x = x or default`, `if not x: x = default`) replaces a given falsy value by the default.
+PickQ(a, dflt) == IF a[1] /\ ~(Deviation = "TruthinessDefault" /\ FalsyQ(a[2])) THEN a[2] ELSE dflt
+PickS(a, dflt) == IF a[1] /\ ~(Deviation = "TruthinessDefault" /\ FalsyS(a[2])) THEN a[2] ELSE dflt
 
-Opts ==
-       { [Base EXCEPT !.problem = "Deconvolution1D", !.n = s[1], !.m = s[2], !.psf = s[3], !.bc = bc, !.phantom = ph,
-                      !.noise = nz, !.level = lv, !.prior = pr, !.zpat = z] :
-           s \in Shapes1, bc \in BCs1, ph \in {"ramp", "sq"}, nz \in {"gaussian", "scaledgaussian"}, lv \in Levels,
-           pr \in {"default", "given"}, z \in ZPats }
-  \cup { [Base EXCEPT !.problem = "Deconvolution1D_legacy", !.n = s[1], !.m = s[2], !.psf = s[3], !.bc = "periodic",
-                      !.orient = o, !.phantom = ph, !.noise = nz, !.level = lv, !.prior = pr, !.zpat = z] :
-           s \in ShapesL, o \in {"conv", "corr"}, ph \in {"ramp", "sq"}, nz \in {"gaussian", "scaledgaussian"}, lv \in Levels,
-           pr \in {"default", "given"}, z \in ZPats }
-  \cup { [Base EXCEPT !.problem = "Deconvolution2D", !.n = s[1], !.m = s[2], !.psf = s[3], !.bc = bc, !.phantom = ph,
-                      !.noise = nz, !.level = lv, !.prior = pr, !.zpat = z] :
-           s \in Shapes2, bc \in BCs2, ph \in {"ramp", "sq"}, nz \in {"gaussian", "scaledgaussian"}, lv \in Levels,
-           pr \in {"default", "given"}, z \in ZPats }
-  \cup { [Base EXCEPT !.problem = p, !.n = 4, !.noise = "snr", !.level = lv, !.zpat = z, !.exsol = e] :
-           p \in {"Heat1D", "Poisson1D", "Abel1D"}, lv \in {R(2), R(10)}, z \in ZPats, e \in {"default", "given"} }
-  \cup { [Base EXCEPT !.problem = "WangCubic", !.n = 2, !.noise = "gaussian", !.level = lv, !.prior = pr, !.wdata = w] :
-           lv \in Levels, pr \in {"default", "given"}, w \in {"default", "given"} }
+OptQ == {"psfparam", "pparam", "level", "wdata"}          \* numbers: PSF_param (legacy), phantom_param, noise_std / SNR, data
+OptS == {"psf", "phantom", "prior", "exsol"}                \* arrays / names / objects: PSF, phantom, prior, exactSolution
+OptNames == OptQ \cup OptS
 
-ValidOpt(o) == (o.problem = "Abel1D" => o.exsol = "default")     \* Abel1D has no exactSolution option
+ArrayPsfs     == {"ramp", "quad", "sym", "zeros"}           \* custom PSF arrays
+LegacyPsfs    == {"lgauss", "lsinc", "lvonmises"}           \* legacy PSF functions g(PSF_param * distance), g(0) = 1
+ArrayPhantoms == {"ramp", "sq", "zeros"}                    \* custom phantom / exact-solution arrays
+NamedPhantoms == {"gauss", "sinc", "vonmises"}              \* phantom functions f(phantom_param * t), f(0) = 1 = max f
+
+Base == [problem |-> "na", n |-> 0, m |-> 0, psf |-> NotGivenS, psfparam |-> NotGivenQ, bc |-> "na", orient |-> "na",
+         phantom |-> NotGivenS, pparam |-> NotGivenQ, noise |-> "na", level |-> NotGivenQ, prior |-> NotGivenS, zpat |-> "zero",
+         exsol |-> NotGivenS, wdata |-> NotGivenQ, wform |-> "na"]
+
+D1(s, bc, ph, nz, lv, pr, z) ==
+    [Base EXCEPT !.problem = "Deconvolution1D", !.n = s[1], !.m = s[2], !.psf = Giv(s[3]), !.bc = bc, !.phantom = ph,
+                 !.noise = nz, !.level = lv, !.prior = pr, !.zpat = z]
+DL(s, o, ph, nz, lv, pr, z) ==
+    [Base EXCEPT !.problem = "Deconvolution1D_legacy", !.n = s[1], !.m = s[2], !.psf = Giv(s[3]), !.bc = "periodic", !.orient = o,
+                 !.phantom = ph, !.noise = nz, !.level = lv, !.prior = pr, !.zpat = z]
+D2(s, bc, ph, nz, lv, pr, z) ==
+    [Base EXCEPT !.problem = "Deconvolution2D", !.n = s[1], !.m = s[2], !.psf = Giv(s[3]), !.bc = bc, !.phantom = ph,
+                 !.noise = nz, !.level = lv, !.prior = pr, !.zpat = z]
+Priors == {NotGivenS, Giv("ones4")}
+Noises == {"gaussian", "scaledgaussian"}
+\* <<PSF, phantom>> with an all-zero array in one or both places (shape s)
+ZeroPairs(s) == {<<s[3], "zeros">>, <<"zeros", "ramp">>, <<"zeros", "zeros">>}
+First(S) == CHOOSE s \in S : \A t \in S : s[1] >= t[1]
+
+\* the option lattice: non-falsy values of every option ...
+MainOpts ==
+       { D1(s, bc, Giv(ph), nz, Giv(lv), pr, z) :
+           s \in Shapes1, bc \in BCs1, ph \in {"ramp", "sq"}, nz \in Noises, lv \in Levels, pr \in Priors, z \in ZPats }
+  \cup { DL(s, o, Giv(ph), nz, Giv(lv), pr, z) :
+           s \in ShapesL, o \in {"conv", "corr"}, ph \in {"ramp", "sq"}, nz \in Noises, lv \in Levels, pr \in Priors, z \in ZPats }
+  \cup { D2(s, bc, Giv(ph), nz, Giv(lv), pr, z) :
+           s \in Shapes2, bc \in BCs2, ph \in {"ramp", "sq"}, nz \in Noises, lv \in Levels, pr \in Priors, z \in ZPats }
+  \cup { [Base EXCEPT !.problem = p, !.n = 4, !.noise = "snr", !.level = Giv(lv), !.zpat = z, !.exsol = e] :
+           p \in {"Heat1D", "Poisson1D", "Abel1D"}, lv \in {R(2), R(10)}, z \in ZPats, e \in {NotGivenS, Giv("sq")} }
+\* ... the FALSY but admissible values of every option that has one (see OptionTable), and the documented defaults ...
+FalsyOptsAll ==
+       \* all-zero custom PSF / phantom arrays (additive Gaussian noise: the scaled noise is degenerate for zero data)
+       { D1([s EXCEPT ![3] = zp[1]], bc, Giv(zp[2]), "gaussian", Giv(Q(1, 2)), pr, "alt") :
+           s \in Shapes1, bc \in {"zero", "reflect"}, zp \in UNION {ZeroPairs(t) : t \in Shapes1}, pr \in Priors }
+  \cup { DL([s EXCEPT ![3] = zp[1]], o, Giv(zp[2]), "gaussian", Giv(Q(1, 2)), NotGivenS, "alt") :
+           s \in ShapesL, o \in {"conv", "corr"}, zp \in UNION {ZeroPairs(t) : t \in ShapesL} }
+  \cup { D2([s EXCEPT ![3] = zp[1]], bc, Giv(zp[2]), "gaussian", Giv(Q(1, 2)), pr, "alt") :
+           s \in Shapes2, bc \in {"zero", "neumann"}, zp \in UNION {ZeroPairs(t) : t \in Shapes2}, pr \in Priors }
+       \* phantom functions with phantom_param = 0 (constant 1) / not given / built-in phantom; noise_std not given
+  \cup { [D1(First(Shapes1), "periodic", ph, "gaussian", lv, NotGivenS, "alt") EXCEPT !.pparam = pp] :
+           ph \in {Giv(f) : f \in NamedPhantoms} \cup {NotGivenS}, pp \in {Giv(Zero), NotGivenQ}, lv \in {Giv(Q(1, 2)), NotGivenQ} }
+       \* legacy PSF functions with PSF_param = 0 (constant 1: the all-ones circulant matrix)
+  \cup { [DL(<<4, 4, "lgauss">>, "conv", Giv("ramp"), nz, Giv(Q(1, 2)), NotGivenS, "alt") EXCEPT !.psf = g, !.psfparam = Giv(Zero)] :
+           g \in {Giv(f) : f \in LegacyPsfs} \cup {NotGivenS}, nz \in Noises }
+       \* noise_std not given (documented defaults 0.01 / 0.0036)
+  \cup { D1(First(Shapes1), "periodic", Giv("ramp"), nz, NotGivenQ, NotGivenS, "alt") : nz \in Noises }
+  \cup { DL(First(ShapesL), o, Giv("ramp"), nz, NotGivenQ, NotGivenS, "alt") : o \in {"conv", "corr"}, nz \in Noises }
+  \cup { D2(First(Shapes2), "periodic", Giv("ramp"), nz, NotGivenQ, NotGivenS, "alt") : nz \in Noises }
+       \* all-zero exact solution (Heat1D: zero initial condition; Poisson1D: not admissible, see ValidOpt); SNR not given
+  \cup { [Base EXCEPT !.problem = "Heat1D", !.n = 4, !.noise = "snr", !.level = Giv(lv), !.zpat = z, !.exsol = Giv("zeros")] :
+           lv \in {R(2), R(10)}, z \in ZPats }
+  \cup { [Base EXCEPT !.problem = p, !.n = 4, !.noise = "snr", !.level = NotGivenQ, !.zpat = "alt"] :
+           p \in {"Heat1D", "Poisson1D", "Abel1D"} }
+       \* WangCubic: data given as 0 (int, float, one-element array), as other values, not given; noise_std, prior (not) given
+  \cup { [Base EXCEPT !.problem = "WangCubic", !.n = 2, !.noise = "gaussian", !.level = lv, !.prior = pr, !.wdata = w[1], !.wform = w[2]] :
+           lv \in {Giv(l) : l \in Levels} \cup (IF Size = 0 THEN {} ELSE {NotGivenQ}), pr \in Priors,
+           w \in {<<NotGivenQ, "na">>} \cup ({Giv(R(3)), Giv(Zero)} \cup (IF Size = 0 THEN {} ELSE {Giv(R(-2))})) \X (IF Size = 0 THEN {"int"} ELSE {"int", "float", "vec"}) }
+\* (the tiny lattice of the deviation runs keeps a few of them)
+FalsyOpts == IF Size # 0 THEN FalsyOptsAll
+             ELSE {o \in FalsyOptsAll : \/ o.problem = "WangCubic"
+                                        \/ (o.problem = "Deconvolution1D" /\ o.bc = "zero" /\ ~o.prior[1] /\ ~o.pparam[1] /\ o.level[1])}
+Opts == MainOpts \cup FalsyOpts
 
 IsDeconv(o)  == o.problem \in {"Deconvolution1D", "Deconvolution1D_legacy", "Deconvolution2D"}
 IsSnr(o)     == o.noise = "snr"
 IsWang(o)    == o.problem = "WangCubic"
-Numeric(o)   == IsDeconv(o)                                        \* exact numbers for exactData / data
 DomDim(o)    == CASE o.problem = "Deconvolution2D" -> o.n * o.n
                   [] o.problem = "WangCubic"       -> 2
-                  [] o.problem = "Poisson1D"       -> o.n
                   [] OTHER                          -> o.n
 RngDim(o)    == CASE o.problem = "Deconvolution2D" -> o.n * o.n
                   [] o.problem = "WangCubic"       -> 1
                   [] o.problem = "Poisson1D"       -> o.n - 1
                   [] OTHER                          -> o.n
 
-Phantom(name, d) == IF name = "ramp" THEN [i \in 1..d |-> i] ELSE [i \in 1..d |-> ((i * i) % 5) + 1]
+\* the documented defaults
+DefaultOf(o, k) ==
+    CASE k = "level"    -> CASE o.problem \in {"Deconvolution1D", "Deconvolution1D_legacy"} -> Q(1, 100)       \* noise_std = 0.01
+                             [] o.problem = "Deconvolution2D" -> Q(9, 2500)                                     \* noise_std = 0.0036
+                             [] o.problem = "WangCubic"       -> One                                            \* noise_std = 1
+                             [] o.problem = "Abel1D"          -> R(100)                                         \* SNR = 100
+                             [] OTHER                          -> R(200)                                         \* SNR = 200
+      [] k = "wdata"    -> One                                                                                  \* data = 1
+      [] k = "pparam"   -> R(5)                                                                                 \* Gauss, sinc, vonMises
+      [] k = "psfparam" -> IF o.psf = Giv("lsinc") THEN R(15) ELSE IF o.psf = Giv("lvonmises") THEN R(5) ELSE R(10)
+      [] k = "phantom"  -> IF o.problem \in {"Deconvolution1D", "Deconvolution1D_legacy"} THEN "sinc" ELSE "builtin"
+      [] k = "psf"      -> IF o.problem = "Deconvolution1D_legacy" THEN "lgauss" ELSE "builtin"
+      [] OTHER          -> "builtin"                  \* the problem's built-in PSF / phantom / prior / exact solution
+Resolve(o, PQ(_, _), PS(_, _)) ==
+    [k \in OptNames |-> IF k \in OptQ THEN PQ(o[k], DefaultOf(o, k)) ELSE PS(o[k], DefaultOf(o, k))]
+Design(o) == Resolve(o, Used, Used)           \* effective options of the documented interface
+Impl(o)   == Resolve(o, PickQ, PickS)         \* effective options of the modelled implementation
+
+\* ---- what the effective options mean --------------------------------------------------------------
+\* "builtin" objects (Gauss PSF, sinc phantom, built-in exact solutions, named functions with a non-zero parameter) are not
+\* rational: nothing numeric is stated about them (AKnown / XKnown / YKnown are FALSE).  Where a deviation makes the modelled
+\* implementation pick one, a stand-in that differs from every given value is used.
+PsfName(o, e) == IF e.psf \in LegacyPsfs THEN (IF e.psfparam = Zero THEN "ones" ELSE "builtin") ELSE e.psf
+XName(o, e)   == LET src == IF IsDeconv(o) THEN e.phantom ELSE e.exsol
+                 IN IF src \in NamedPhantoms THEN (IF e.pparam = Zero THEN "ones" ELSE "builtin") ELSE src
+AKnown(o, e)  == IsDeconv(o) /\ PsfName(o, e) # "builtin"
+XKnown(o, e)  == ~IsWang(o) /\ XName(o, e) # "builtin"
+\* exact data known: exact operator and solution, or a linear model (Heat1D: u_K = M^K u_0) applied to the zero vector
+YKnown(o, e)  == (AKnown(o, e) /\ XKnown(o, e)) \/ (o.problem = "Heat1D" /\ XName(o, e) = "zeros")
+DKnown(o, e)  == IsDeconv(o) /\ YKnown(o, e)
+
+Phantom(name, d) ==
+    CASE name = "ramp"    -> [i \in 1..d |-> i]
+      [] name = "zeros"   -> [i \in 1..d |-> 0]
+      [] name = "ones"    -> [i \in 1..d |-> 1]
+      [] name = "builtin" -> [i \in 1..d |-> 2 * i + 1]                   \* stand-in
+      [] OTHER            -> [i \in 1..d |-> ((i * i) % 5) + 1]           \* "sq"
+XVec(o, e) == Phantom(XName(o, e), DomDim(o))
 ZVec(name, d) ==
     CASE name = "zero" -> [i \in 1..d |-> 0]
       [] name = "e1"   -> [i \in 1..d |-> IF i = 1 THEN 1 ELSE 0]
@@ -218,46 +331,130 @@ ZVec(name, d) ==
       [] name = "ones" -> [i \in 1..d |-> 1]
       [] name = "alt"  -> [i \in 1..d |-> IF i % 2 = 1 THEN 2 ELSE -1]
 
+PsfArr(o, e) == LET nm == IF PsfName(o, e) = "builtin" THEN "sym" ELSE PsfName(o, e)     \* "sym": stand-in
+                IN IF o.problem = "Deconvolution2D" THEN CV!Psf2(nm, o.m) ELSE CV!Psf1(nm, o.m)
 \* the operator of a deconvolution option (integer matrix); bcx overrides the boundary condition
-DeconvMat(o, bcx) ==
-    CASE o.problem = "Deconvolution1D"        -> CV!ConvMat1(CV!Psf1(o.psf, o.m), o.n, bcx)
-      [] o.problem = "Deconvolution1D_legacy" -> LET C == CV!ConvMat1(CV!Psf1(o.psf, o.m), o.n, "periodic")
+DeconvMat(o, e, bcx) ==
+    CASE o.problem = "Deconvolution1D"        -> CV!ConvMat1(PsfArr(o, e), o.n, bcx)
+      [] o.problem = "Deconvolution1D_legacy" -> LET C == CV!ConvMat1(PsfArr(o, e), o.n, "periodic")
                                                  IN IF o.orient = "conv" THEN C ELSE CV!IT(C)
-      [] o.problem = "Deconvolution2D"        -> CV!ConvMat2(CV!Psf2(o.psf, o.m), o.n, bcx)
+      [] o.problem = "Deconvolution2D"        -> CV!ConvMat2(PsfArr(o, e), o.n, bcx)
 OtherBC(bc) == IF bc = "zero" THEN "nearest" ELSE "zero"
+\* exact data: the operator applied to the solution; for the other linear models only "zero in, zero out" is used
+YVec(o, A, x) == IF IsDeconv(o) THEN IMV(A, x)
+                 ELSE [i \in 1..RngDim(o) |-> IF \A j \in 1..Len(x) : x[j] = 0 THEN 0 ELSE 1]       \* 1: stand-in
 
 \* stated noise: scale record and (numeric case) the vector of standard deviations
-Stated(o) == [kind |-> IF o.noise = "gaussian" THEN "const" ELSE IF o.noise = "scaledgaussian" THEN "absdata" ELSE "snr", v |-> o.level]
+Stated(o, e) == [kind |-> IF o.noise = "gaussian" THEN "const" ELSE IF o.noise = "scaledgaussian" THEN "absdata" ELSE "snr", v |-> e.level]
 ScaleVec(sc, y) == F([i \in 1..Len(y) |-> IF sc.kind = "const" THEN sc.v ELSE RMul(sc.v, R(IAbs(y[i])))])
 
-PriorOf(o) == IF o.prior = "default"
-              THEN [mean |-> IF IsWang(o) THEN <<1, 0>> ELSE [i \in 1..DomDim(o) |-> 0], var |-> One, geom |-> "default"]
-              ELSE [mean |-> [i \in 1..DomDim(o) |-> 1], var |-> R(4), geom |-> "default"]
+PriorOf(o, e) == IF e.prior = "builtin"
+                 THEN [mean |-> IF IsWang(o) THEN <<1, 0>> ELSE [i \in 1..DomDim(o) |-> 0], var |-> One, geom |-> "default"]
+                 ELSE [mean |-> [i \in 1..DomDim(o) |-> 1], var |-> R(4), geom |-> "default"]              \* "ones4"
+
+\* admissible option combinations (everything else raises or is meaningless on the documented interface)
+ValidOpt(o) ==
+    LET e == Design(o)
+    IN /\ (o.problem = "Abel1D" => ~o.exsol[1])                                    \* Abel1D has no exactSolution option
+       /\ (o.problem = "Poisson1D" => e.exsol # "zeros")                           \* zero conductivity: singular system
+       /\ (o.noise = "scaledgaussian" => PsfName(o, e) # "zeros" /\ XName(o, e) # "zeros")      \* zero data: zero std
+       /\ (o.problem = "Deconvolution2D" => o.phantom[1])                          \* (built-in image phantoms are not swept)
+       /\ (o.pparam[1] => e.phantom \in NamedPhantoms)                             \* phantom_param only for phantom functions
+ValidOpts == {o \in Opts : ValidOpt(o)}
+
+\* ---- Part C: every constructor option that has a default, and its admissible falsy values -----------
+\* field = the option's field in the option record ("heat.K" = the K = 0 instances of Part A, "" = nothing to sweep);
+\* falsy = admissible values that Python treats as false; why = why there is none.
+Row(p, o, d, f, fz, w) == [problem |-> p, option |-> o, default |-> d, field |-> f, falsy |-> fz, why |-> w]
+OptionTable == {
+    Row("Deconvolution1D", "dim", "128", "", <<>>, "0: no grid"),
+    Row("Deconvolution1D", "PSF", "gauss", "psf", <<"all-zero array">>, ""),
+    Row("Deconvolution1D", "PSF_param", "10", "", <<>>, "0: the PSF functions are 0/0, the constructor raises"),
+    Row("Deconvolution1D", "PSF_size", "dim", "", <<>>, "0: empty PSF, the constructor raises"),
+    Row("Deconvolution1D", "BC", "periodic", "", <<>>, "the empty string is not a boundary condition"),
+    Row("Deconvolution1D", "phantom", "sinc", "phantom", <<"all-zero array">>, ""),
+    Row("Deconvolution1D", "phantom_param", "5 (Gauss, sinc, vonMises)", "pparam", <<"0">>, ""),
+    Row("Deconvolution1D", "noise_type", "gaussian", "", <<>>, "the empty string is not a noise type"),
+    Row("Deconvolution1D", "noise_std", "0.01", "", <<>>, "0: degenerate data distribution, the constructor raises"),
+    Row("Deconvolution1D", "prior", "Gaussian(0, 1)", "", <<>>, "distribution objects are never false (given / not given is swept)"),
+    Row("Deconvolution1D", "use_legacy", "False", "", <<>>, "boolean"),
+    Row("Deconvolution1D_legacy", "PSF", "gauss", "psf", <<"all-zero array">>, ""),
+    Row("Deconvolution1D_legacy", "PSF_param", "10 / 15 / 5", "psfparam", <<"0">>, ""),
+    Row("Deconvolution1D_legacy", "phantom", "sinc", "phantom", <<"all-zero array">>, ""),
+    Row("Deconvolution1D_legacy", "noise_std", "0.01", "", <<>>, "0: degenerate data distribution, the constructor raises"),
+    Row("Deconvolution1D_legacy", "prior", "Gaussian(0, 1)", "", <<>>, "distribution objects are never false"),
+    Row("Deconvolution2D", "dim", "128", "", <<>>, "0: no grid"),
+    Row("Deconvolution2D", "PSF", "gauss", "psf", <<"all-zero array">>, ""),
+    Row("Deconvolution2D", "PSF_param", "2.56", "", <<>>, "0: the PSF functions are 0/0, the constructor raises"),
+    Row("Deconvolution2D", "PSF_size", "21", "", <<>>, "0: empty PSF"),
+    Row("Deconvolution2D", "BC", "periodic", "", <<>>, "the empty string is not a boundary condition"),
+    Row("Deconvolution2D", "phantom", "satellite", "phantom", <<"all-zero array">>, ""),
+    Row("Deconvolution2D", "noise_type", "gaussian", "", <<>>, "the empty string is not a noise type"),
+    Row("Deconvolution2D", "noise_std", "0.0036", "", <<>>, "0: degenerate data distribution, the constructor raises"),
+    Row("Deconvolution2D", "prior", "Gaussian(0, 1)", "", <<>>, "distribution objects are never false"),
+    Row("Heat1D", "dim", "128", "", <<>>, "0: no grid"),
+    Row("Heat1D", "endpoint", "1", "", <<>>, "0: zero step size"),
+    Row("Heat1D", "max_time", "0.2", "heat.K", <<"0">>, ""),
+    Row("Heat1D", "field_type / map / imap / observation_grid_map", "None", "", <<>>, "geometry objects and callables are never false"),
+    Row("Heat1D", "field_params", "None", "", <<>>, "the empty dict is the default itself"),
+    Row("Heat1D", "SNR", "200", "", <<>>, "0: infinite noise"),
+    Row("Heat1D", "exactSolution", "built-in function", "exsol", <<"all-zero array">>, ""),
+    Row("Poisson1D", "dim", "128", "", <<>>, "0: no grid"),
+    Row("Poisson1D", "endpoint", "1", "", <<>>, "0: zero step size"),
+    Row("Poisson1D", "source", "Gaussian bump", "", <<>>, "callables are never false"),
+    Row("Poisson1D", "field_type / map / imap / observation_grid_map", "None", "", <<>>, "geometry objects and callables are never false"),
+    Row("Poisson1D", "field_params", "None", "", <<>>, "the empty dict is the default itself"),
+    Row("Poisson1D", "SNR", "200", "", <<>>, "0: infinite noise"),
+    Row("Poisson1D", "exactSolution", "built-in function", "", <<>>, "all-zero conductivity: singular system, the constructor raises"),
+    Row("Abel1D", "dim", "128", "", <<>>, "0: no grid"),
+    Row("Abel1D", "endpoint", "1", "", <<>>, "0: zero step size"),
+    Row("Abel1D", "field_type / KL_map / KL_imap", "None", "", <<>>, "geometry objects and callables are never false"),
+    Row("Abel1D", "field_params", "None", "", <<>>, "the empty dict is the default itself"),
+    Row("Abel1D", "SNR", "100", "", <<>>, "0: infinite noise"),
+    Row("WangCubic", "noise_std", "1", "", <<>>, "0: the likelihood is undefined"),
+    Row("WangCubic", "prior", "Gaussian((1, 0), 1)", "", <<>>, "distribution objects are never false"),
+    Row("WangCubic", "data", "1", "wdata", <<"0">>, "") }
 
 \* ---- actions ----------------------------------------------------------------------------------
 Null == [none |-> TRUE]
 
-Init == /\ opt \in (ModelCases \cup {o \in Opts : ValidOpt(o)})
+Init == /\ opt \in (ModelCases \cup ValidOpts)
         /\ pc = IF "kind" \in DOMAIN opt THEN "model" ELSE "start"
         /\ heap = Null /\ prob = Null /\ comps = Null
 
-BuildModel ==
+\* the design-level effective options and what is known exactly about them
+D  == Design(opt)
+AK == AKnown(opt, D)
+XK == XKnown(opt, D)
+YK == YKnown(opt, D)
+DK == DKnown(opt, D)
+\* the effective options of the constructed problem
+U  == heap.used
+
+\* argument defaulting at the top of the constructor
+ResolveOptions ==
     /\ pc = "start"
-    /\ heap' = [model  |-> [A |-> IF IsDeconv(opt) THEN DeconvMat(opt, opt.bc) ELSE <<>>, tag |-> "documented",
+    /\ heap' = [used |-> Impl(opt)]
+    /\ pc' = "resolved" /\ UNCHANGED <<opt, prob, comps>>
+
+BuildModel ==
+    /\ pc = "resolved"
+    /\ heap' = [used   |-> U,
+                model  |-> [A |-> IF AK THEN DeconvMat(opt, U, opt.bc) ELSE <<>>, tag |-> "documented",
                             dgeom |-> "gdom", rgeom |-> "grng"],
-                model2 |-> [A |-> IF IsDeconv(opt) THEN DeconvMat(opt, OtherBC(opt.bc)) ELSE <<>>, tag |-> "other",
+                model2 |-> [A |-> IF AK THEN DeconvMat(opt, U, OtherBC(opt.bc)) ELSE <<>>, tag |-> "other",
                             dgeom |-> "gdom", rgeom |-> "grng"]]
     /\ pc' = "model_built" /\ UNCHANGED <<opt, prob, comps>>
 
 \* exact solution and exact data = model(exact solution); WangCubic has neither
 MakeExact ==
     /\ pc = "model_built"
-    /\ LET x  == Phantom(opt.phantom, DomDim(opt))
-           xy == IF Deviation = "OtherPhantom" THEN Phantom(IF opt.phantom = "ramp" THEN "sq" ELSE "ramp", DomDim(opt)) ELSE x
+    /\ LET x  == XVec(opt, U)
+           xy == IF Deviation = "OtherPhantom" THEN Phantom(IF XName(opt, U) = "ramp" THEN "sq" ELSE "ramp", DomDim(opt)) ELSE x
        IN heap' = IF IsWang(opt) THEN heap
                   ELSE [k \in DOMAIN heap \cup {"xex", "yex"} |->
-                          IF k = "xex" THEN [vals |-> IF Numeric(opt) THEN x ELSE <<>>, src |-> opt.exsol, geom |-> "gdom"]
-                          ELSE IF k = "yex" THEN [vals |-> IF Numeric(opt) THEN IMV(heap.model.A, xy) ELSE <<>>,
+                          IF k = "xex" THEN [vals |-> IF XK THEN x ELSE <<>>, geom |-> "gdom"]
+                          ELSE IF k = "yex" THEN [vals |-> IF YK THEN YVec(opt, heap.model.A, xy) ELSE <<>>,
                                                   model |-> "model", x |-> IF Deviation = "OtherPhantom" THEN "other" ELSE "xex",
                                                   geom |-> "grng"]
                           ELSE heap[k]]
@@ -266,13 +463,13 @@ MakeExact ==
 \* prior and data distribution (mean = model(x), standard deviations from the stated noise)
 MakeDataDist ==
     /\ pc = "exact_made"
-    /\ LET st == Stated(opt)
+    /\ LET st == Stated(opt, U)
            sc == IF Deviation = "VarianceAsStd" THEN [st EXCEPT !.v = RSq(st.v)] ELSE st
            mdl == IF Deviation = "OtherModelInstance" THEN "model2" ELSE "model"
        IN heap' = [k \in DOMAIN heap \cup {"prior", "ddist"} |->
-                     IF k = "prior" THEN PriorOf(opt)
+                     IF k = "prior" THEN PriorOf(opt, U)
                      ELSE IF k = "ddist" THEN [model |-> mdl, scale |-> sc,
-                                               svec |-> IF Numeric(opt) THEN ScaleVec(sc, heap.yex.vals)
+                                               svec |-> IF DK THEN ScaleVec(sc, heap.yex.vals)
                                                         ELSE IF IsWang(opt) THEN <<sc.v>> ELSE <<>>,
                                                geom |-> "grng"]
                      ELSE heap[k]]
@@ -283,11 +480,11 @@ MakeDataDist ==
 SampleData ==
     /\ pc = "ddist_made"
     /\ LET Z == IF IsWang(opt) THEN <<>> ELSE ZVec(opt.zpat, RngDim(opt))
-           mu == IF Numeric(opt) THEN IMV(heap[heap.ddist.model].A, heap.xex.vals) ELSE <<>>
+           mu == IF DK THEN IMV(heap[heap.ddist.model].A, heap.xex.vals) ELSE <<>>
        IN heap' = [k \in DOMAIN heap \cup {"data"} |->
                      IF k = "data"
-                     THEN [vals |-> IF Numeric(opt) THEN F([i \in 1..Len(mu) |-> RAdd(R(mu[i]), RMul(heap.ddist.svec[i], R(Z[i])))])
-                                    ELSE IF IsWang(opt) THEN <<IF opt.wdata = "default" THEN R(1) ELSE R(3)>> ELSE <<>>,
+                     THEN [vals |-> IF DK THEN F([i \in 1..Len(mu) |-> RAdd(R(mu[i]), RMul(heap.ddist.svec[i], R(Z[i])))])
+                                    ELSE IF IsWang(opt) THEN <<U.wdata>> ELSE <<>>,
                            base |-> IF IsWang(opt) THEN "given" ELSE "yex", scale |-> heap.ddist.scale, Z |-> Z,
                            ndraws |-> Len(Z), geom |-> "grng"]
                      ELSE heap[k]]
@@ -324,12 +521,30 @@ GetComponents ==
                  exactSolution |-> prob.exactSolution, exactData |-> prob.exactData]
     /\ pc' = "handed" /\ UNCHANGED <<opt, heap, prob>>
 
-Next == BuildModel \/ MakeExact \/ MakeDataDist \/ SampleData \/ MakeLikelihood \/ Assemble \/ GetComponents
+Next == ResolveOptions \/ BuildModel \/ MakeExact \/ MakeDataDist \/ SampleData \/ MakeLikelihood \/ Assemble \/ GetComponents
         \/ (pc \in {"model", "handed"} /\ UNCHANGED vars)
 Spec == Init /\ [][Next]_vars
 
-\* ---- invariants (on the finished problem) ---------------------------------------------------------
+\* ---- invariants -----------------------------------------------------------------------------------
 Done == pc = "handed"
+
+\* an explicitly given value is never replaced by the default - whatever the value is (0, all-zero arrays ...) - and an
+\* argument that is not given gets the documented default
+GivenIsUsed ==
+    (pc \notin {"model", "start"}) =>
+        \A k \in OptNames : /\ (opt[k][1] => U[k] = opt[k][2])
+                            /\ (~opt[k][1] => U[k] = DefaultOf(opt, k))
+\* ... and this is what the finished problem shows: the given exact solution / phantom, the given observation
+ExactSolutionIsGiven == (Done /\ XK) => heap.xex.vals = XVec(opt, D)
+GivenDataIsData      == (Done /\ IsWang(opt)) => heap[PData].vals = <<Used(opt.wdata, One)>>
+\* every option of OptionTable with an admissible falsy value is realised by an instance of the lattice (evaluated once)
+IsFalsy(o, k) == o[k][1] /\ (IF k \in OptQ THEN FalsyQ(o[k][2]) ELSE FalsyS(o[k][2]))
+TableCovered ==
+    (pc = "model" /\ opt.kind = "wang") =>
+        \A row \in OptionTable :
+            /\ (row.falsy = <<>>) = (row.field = "")
+            /\ (row.field = "heat.K" => \E c \in ModelCases : c.kind = "heat" /\ c.K = 0)
+            /\ (row.field \in OptNames => \E o \in ValidOpts : o.problem = row.problem /\ IsFalsy(o, row.field))
 
 \* one model: handed out = in the likelihood = the one that produced the exact data
 SameModel == Done => /\ comps.model = PModel
@@ -347,15 +562,16 @@ SameGeometries ==
 ExactDataIsModelOfExactSolution ==
     Done /\ ~IsWang(opt) =>
         /\ heap.yex.x = "xex" /\ comps.exactSolution = "xex" /\ comps.exactData = "yex"
-        /\ (Numeric(opt) => heap.yex.vals = IMV(heap[PModel].A, heap.xex.vals))
+        /\ (DK => heap.yex.vals = IMV(heap[PModel].A, heap.xex.vals))
+        /\ (YK /\ ~DK => heap.yex.vals = [i \in 1..RngDim(opt) |-> 0])
 \* data - exactData = NoiseScale(type, level, exactData) .* Z
 NoiseRelation ==
     Done /\ ~IsWang(opt) =>
-        /\ heap[PData].base = "yex" /\ heap[PData].scale = Stated(opt) /\ heap[PData].ndraws = RngDim(opt)
-        /\ (Numeric(opt) =>
-              LET y == heap.yex.vals  s == ScaleVec(Stated(opt), y)  Z == heap[PData].Z
+        /\ heap[PData].base = "yex" /\ heap[PData].scale = Stated(opt, D) /\ heap[PData].ndraws = RngDim(opt)
+        /\ (DK =>
+              LET y == heap.yex.vals  s == ScaleVec(Stated(opt, D), y)  Z == heap[PData].Z
               IN \A i \in 1..Len(y) : RSub(heap[PData].vals[i], R(y[i])) = RMul(s[i], R(Z[i])))
-LikelihoodNoiseIsStated == Done => heap[PLik].scale = Stated(opt)
+LikelihoodNoiseIsStated == Done => heap[PLik].scale = Stated(opt, D)
 
 \* -2 log-density up to the normalising constants = sum of squares of the standardised residuals (kept as a vector:
 \* their sum of squares has a denominator too large for 32-bit rationals) + prior quadratic form,
@@ -364,35 +580,39 @@ FwdRef(mref, x) == IF IsWang(opt) THEN <<WangF(x[1], x[2])>> ELSE IMV(heap[mref]
 QuadLik(lref, x) ==
     LET L == heap[lref]  d == heap[L.data].vals  mu == FwdRef(L.model, x)
     IN F([i \in 1..Len(d) |-> RDiv(RSub(d[i], R(mu[i])), L.svec[i])])
-QuadPrior(pref, x) ==
-    LET P == heap[pref] IN RDiv(RSumSeq([i \in 1..Len(x) |-> RSq(R(x[i] - P.mean[i]))]), P.var)
-\* ... and from the options alone (intended design)
+QuadOf(P, x) == RDiv(RSumSeq([i \in 1..Len(x) |-> RSq(R(x[i] - P.mean[i]))]), P.var)
+QuadPrior(pref, x) == QuadOf(heap[pref], x)
+\* ... and from the arguments of the call alone (intended design: documented defaults, given values as given)
 QuadLikStated(x) ==
     IF IsWang(opt)
-    THEN <<RDiv(RSub(IF opt.wdata = "default" THEN R(1) ELSE R(3), R(WangF(x[1], x[2]))), opt.level)>>
-    ELSE LET A == DeconvMat(opt, opt.bc)  y == IMV(A, Phantom(opt.phantom, DomDim(opt)))
-             s == ScaleVec(Stated(opt), y)  Z == ZVec(opt.zpat, RngDim(opt))  mu == IMV(A, x)
+    THEN <<RDiv(RSub(D.wdata, R(WangF(x[1], x[2]))), D.level)>>
+    ELSE LET A == DeconvMat(opt, D, opt.bc)  y == IMV(A, XVec(opt, D))
+             s == ScaleVec(Stated(opt, D), y)  Z == ZVec(opt.zpat, RngDim(opt))  mu == IMV(A, x)
          IN F([i \in 1..Len(y) |-> RDiv(RSub(RAdd(R(y[i]), RMul(s[i], R(Z[i]))), R(mu[i])), s[i])])
-QuadPriorStated(x) == QuadPrior("prior", x)
+QuadPriorStated(x) == QuadOf(PriorOf(opt, D), x)
 TestPts == IF IsWang(opt) THEN {<<0, 0>>, <<1, 0>>, <<1, 2>>, <<-1, 1>>}
            ELSE {[i \in 1..DomDim(opt) |-> 0], [i \in 1..DomDim(opt) |-> 1], Phantom("sq", DomDim(opt)),
                  [i \in 1..DomDim(opt) |-> IF i % 2 = 1 THEN 2 ELSE -1]}
 PosteriorIsLikPlusPrior ==
-    (Done /\ (Numeric(opt) \/ IsWang(opt))) =>
+    (Done /\ (DK \/ IsWang(opt))) =>
         \A x \in TestPts : QuadLik(PLik, x) = QuadLikStated(x) /\ QuadPrior(PPrior, x) = QuadPriorStated(x)
 
 \* ---- emission ---------------------------------------------------------------------------------------
-SeqOfSet(S) == LET RECURSIVE go(_) go(T) == IF T = {} THEN <<>> ELSE LET x == CHOOSE x \in T : TRUE IN <<x>> \o go(T \ {x}) IN go(S)
+EmitOptions ==
+    (Emit /\ pc = "model" /\ opt.kind = "wang") =>
+      PrintT("@@CASE " \o ToJson([kind |-> "options", rows |-> SeqOfSet(OptionTable)]) \o " @@END")
 EmitProblem ==
     (Emit /\ Done) =>
       PrintT("@@CASE " \o ToJson(
-        [kind |-> "problem", problem |-> opt.problem, n |-> opt.n, m |-> opt.m, psfname |-> opt.psf, bc |-> opt.bc,
-         orient |-> opt.orient, phantom |-> opt.phantom, noise |-> opt.noise, level |-> opt.level, prior |-> opt.prior,
-         zpat |-> opt.zpat, exsol |-> opt.exsol, wdata |-> opt.wdata, numeric |-> Numeric(opt),
-         psf |-> IF ~IsDeconv(opt) THEN <<>> ELSE IF opt.problem = "Deconvolution2D" THEN CV!Psf2(opt.psf, opt.m) ELSE CV!Psf1(opt.psf, opt.m),
+        [kind |-> "problem", problem |-> opt.problem, n |-> opt.n, m |-> opt.m, bc |-> opt.bc, orient |-> opt.orient,
+         noise |-> opt.noise, zpat |-> opt.zpat, wform |-> opt.wform,
+         args |-> [k \in OptNames |-> opt[k]], used |-> D, falsy |-> SeqOfSet({k \in OptNames : IsFalsy(opt, k)}),
+         domdim |-> DomDim(opt), rngdim |-> RngDim(opt),
+         numeric |-> AK, xknown |-> XK, yknown |-> YK, dknown |-> DK,
+         psf |-> IF AK THEN PsfArr(opt, D) ELSE <<>>,
          A |-> heap[PModel].A,
-         x |-> IF IsWang(opt) THEN <<>> ELSE Phantom(opt.phantom, DomDim(opt)),
-         y |-> IF IsWang(opt) THEN <<>> ELSE heap.yex.vals,
+         x |-> IF XK THEN heap.xex.vals ELSE <<>>,
+         y |-> IF YK THEN heap.yex.vals ELSE <<>>,
          Z |-> heap[PData].Z, scale |-> heap[PLik].scale, svec |-> heap[PLik].svec, data |-> heap[PData].vals,
          prior_mean |-> heap[PPrior].mean, prior_var |-> heap[PPrior].var,
          info |-> [exactSolution |-> comps.exactSolution # "none", exactData |-> comps.exactData # "none", infoString |-> prob.infoString],
@@ -400,8 +620,7 @@ EmitProblem ==
                     <<"posterior.likelihood", "problem.likelihood">>, <<"posterior.prior", "problem.prior">>,
                     <<"components.data", "problem.data">>, <<"problem.data", "likelihood.data">>, <<"posterior.data", "problem.data">>,
                     <<"posterior.model", "problem.model">>>>,
-         logd |-> IF Numeric(opt) \/ IsWang(opt)
-                  THEN LET pts == SeqOfSet(TestPts)
-                       IN [i \in 1..Len(pts) |-> [x |-> pts[i], res |-> QuadLikStated(pts[i]), priorq |-> QuadPriorStated(pts[i])]]
-                  ELSE <<>>]) \o " @@END")
+         logd |-> LET pts == SeqOfSet(TestPts)
+                  IN [i \in 1..Len(pts) |-> [x |-> pts[i], res |-> IF DK \/ IsWang(opt) THEN QuadLikStated(pts[i]) ELSE <<>>,
+                                             priorq |-> QuadPriorStated(pts[i])]]]) \o " @@END")
 =============================================================================
